@@ -527,8 +527,12 @@ def process(chk, D, state, cases, outs):
                 groups.append(g)
         if not exprs:
             return
-        vals = chk.coq_eval(HEADER, exprs, shard=max(4, min(40, len(exprs) // 12 + 1)),
-                            name="cases%d" % chk.evaluations)
+        try:
+            vals = chk.coq_eval(HEADER, exprs, shard=12, name="cases%d" % chk.evaluations)
+        except RuntimeError:
+            # one retry with smaller files: on the shared machine a coqc is occasionally killed for lack
+            # of memory; a genuine evaluation failure fails again and is reported
+            vals = chk.coq_eval(HEADER, exprs, shard=4, name="retry%d" % chk.evaluations)
         for g, vs in zip(groups, vals):
             if len(vs) != len(g):
                 raise RuntimeError("model printed %d values for %d cases" % (len(vs), len(g)))
